@@ -73,3 +73,58 @@ Example C02_saturates_nonvacuous :
 Proof.
   split; [apply ex_its_wf|]. split; [|split; reflexivity]. exact (extract_k_saturates ex_its 41 ex_its_wf).
 Qed.
+
+(** the saturated context is the set of atoms CONNECTED to the start atoms (by any number of bonds) *)
+Section Component.
+Context {A B : Type}.
+Variable g : lgraph A B.
+Hypothesis W : wf g.
+Variable seeds : list N.
+Hypothesis HS : forall s, In s seeds -> In s (node_ids g).
+
+Inductive connected : N -> Prop :=
+| conn_start s : In s seeds -> connected s
+| conn_bond u v : connected u -> adj g u v <> None -> connected v.
+
+Lemma connected_walk n : connected n <-> exists s m, In s seeds /\ walk_g g s n m.
+Proof.
+  split.
+  - induction 1 as [s I|u v _ (s & m & Is & Wk) Ad]; [exists s, O; split; [exact I|constructor]|].
+    exists s, (S m). split; [exact Is|econstructor; eauto].
+  - intros (s & m & Is & Wk). induction Wk as [s|s u n m Wk IH Ad]; [apply conn_start; exact Is|].
+    eapply conn_bond; [apply IH; exact Is|exact Ad].
+Qed.
+
+Theorem saturated_is_component n :
+  In n (knn_g g seeds (S (length (node_ids g)))) <-> connected n.
+Proof.
+  rewrite connected_walk, knn_g_spec. split.
+  - intros (s & m & Is & _ & Wk). exists s, m. auto.
+  - intros (s & m & Is & Wk).
+    assert (In n (knn_g g seeds (S (length (node_ids g)) + m))) as I by (apply knn_g_spec; exists s, m; repeat split; auto; lia).
+    rewrite (proj1 (ball_saturates g W seeds m HS)) in I. apply knn_g_spec in I. exact I.
+Qed.
+End Component.
+
+(** instance for pair-/absent-label graphs *)
+Corollary extract_k_S_saturates (g : sits) (j : nat) : wf g ->
+  extract_k_S g (S (length (node_ids g)) + j) = extract_k_S g (S (length (node_ids g))).
+Proof.
+  intros W. change (S (length (node_ids g)) + j)%nat with (S (length (node_ids g) + j)).
+  change (extract_k_S g (S (length (node_ids g) + j))) with (ball_sub g (node_ids (get_rc_S K_default false false g)) (S (length (node_ids g)) + j)).
+  change (extract_k_S g (S (length (node_ids g)))) with (ball_sub g (node_ids (get_rc_S K_default false false g)) (S (length (node_ids g)))).
+  apply (ball_saturates g W). intros s. apply rcS_nodes_in. exact (proj1 W).
+Qed.
+
+Example C02_component_nonvacuous :
+  connected ex_its [1%N] 7%N /\ ~ In 7%N (knn_g ex_its [1%N] 2) /\ In 7%N (knn_g ex_its [1%N] 9).
+Proof.
+  split; [|split; [vm_compute; intuition discriminate|vm_compute; auto 10]].
+  apply (conn_bond ex_its [1%N] 6%N 7%N); [|vm_compute; discriminate].
+  apply (conn_bond ex_its [1%N] 5%N 6%N); [|vm_compute; discriminate].
+  apply (conn_bond ex_its [1%N] 1%N 5%N); [|vm_compute; discriminate]. apply conn_start. left. reflexivity.
+Qed.
+
+Theorem saturated_is_component_walk {A B} (g : lgraph A B) (seeds : list N) : wf g -> (forall s, In s seeds -> In s (node_ids g)) ->
+  forall n, In n (knn_g g seeds (S (length (node_ids g)))) <-> exists s m, In s seeds /\ walk_g g s n m.
+Proof. intros W HS n. rewrite (saturated_is_component g W seeds HS n). apply connected_walk. Qed.
